@@ -3,8 +3,6 @@
 package naga
 
 import (
-	"github.com/gogpu/naga/hlsl"
-	"github.com/gogpu/naga/internal/zzclike"
 	"github.com/gogpu/naga/internal/zztpl"
 	zz "github.com/gogpu/naga/internal/zzverif"
 )
@@ -13,56 +11,6 @@ import (
 // -> hlsl.Compile pipeline runs on a template, the emitted HLSL text is parsed and executed by
 // the reference evaluator (internal/zzclike, HLSL dialect) on SYMBOLIC buffer contents, and
 // the final buffer is compared with the WGSL meaning of the template.
-
-func zzHLSLOptions() *hlsl.Options {
-	o := hlsl.DefaultOptions()
-	switch zz.Choice("options", 3) {
-	case 1:
-		o.ShaderModel = hlsl.ShaderModel6_0
-		o.ForceLoopBounding = false
-	case 2:
-		o.RestrictIndexing = false
-	}
-	return o
-}
-
-func zzCompileAndRunHLSL(src string, in []uint32, wid [3]uint32, garbage []uint32) ([]uint32, bool) {
-	ast, err := Parse(src)
-	zz.Assert(err == nil, "template does not parse: "+src)
-	if err != nil {
-		return nil, false
-	}
-	mod, err := LowerWithSource(ast, src)
-	zz.Assert(err == nil, "template does not lower: "+src)
-	if err != nil {
-		return nil, false
-	}
-	verrs, err := Validate(mod)
-	zz.Assert(err == nil && len(verrs) == 0, "template rejected by the validator: "+src)
-	text, info, err := hlsl.Compile(mod, zzHLSLOptions())
-	zz.Assert(err == nil, "HLSL backend rejected the template: "+src)
-	if err != nil {
-		return nil, false
-	}
-	entry := "main"
-	if info != nil {
-		if n, ok := info.EntryPointNames["main"]; ok && n != "" {
-			entry = n
-		}
-	}
-	prog, perr := zzclike.Parse(text, zzclike.HLSL)
-	zz.Assert(perr == "", "emitted HLSL is outside the reference grammar: "+perr)
-	if perr != "" {
-		return nil, false
-	}
-	prog.WorkgroupID, prog.WorkgroupSize, prog.Garbage = wid, [3]uint32{1, 1, 1}, garbage
-	out, rerr := prog.Run(entry, in)
-	zz.Assert(rerr == "", "emitted HLSL cannot be executed by the reference evaluator: "+rerr)
-	if rerr != "" {
-		return nil, false
-	}
-	return out, true
-}
 
 func zzRunTemplateHLSL(t zzTemplate) {
 	src := zzTemplateSource(t)
